@@ -1,6 +1,6 @@
 SPECIFICATION Spec
 CONSTANTS
-  ScSeq = {}
-  Listed = {}
+  ScSeq <- NoScenarios
+  Listed <- NoDevs
   Force = FALSE
 CHECK_DEADLOCK FALSE
